@@ -236,9 +236,9 @@ func runScenario(rep *hx.Report, m *hx.Model, sc scenario) {
 		}
 		ok := false
 		if strings.Contains(when, "after Go #") {
-			ok = waitForD(cond, deadline/3) // the next step's comparison shows that nothing more happened
+			ok = waitForD(cond, deadline/2) // the next step's comparison shows that nothing more happened
 		} else {
-			ok = waitForD(cond, deadline/3) && stable(cond)
+			ok = waitForD(cond, deadline/2) && stable(cond)
 		}
 		if !ok {
 			mismatch(fmt.Sprintf("%s: model concurrent=%d queue=%d started=%d (dispatcher %s)", when, t.c, t.q, t.started, t.d))
